@@ -545,5 +545,176 @@ Proof.
   exact Hp.
 Qed.
 
+(* ---------------------------------------------------------------- labels of the lowered loop are defined once *)
+Lemma compile_for_NoDup (lab_inj : forall k n k' n', lab k n = lab k' n' -> k = k' /\ n = n')
+  (labc_fresh : forall k i j, lab k i <> labc j) n : NoDup (labels (fst (compile_for n))).
+Proof.
+  unfold compile_for. destruct (compile_labels lab lab_inj b) as [HC _].
+  destruct (HC (Some (lab KDone n, labc n)) (S n)) as (Hle & Hr & Hnd).
+  destruct (compile (Some (lab KDone n, labc n)) (S n) b) as [cb n1]. cbn [fst snd] in *.
+  unfold labels. rewrite !flat_map_app. cbn [flat_map app].
+  change (flat_map (fun i => match i with SLabel l => [l] | _ => [] end) cb) with (labels cb).
+  rewrite Forall_forall in Hr.
+  assert (Hcb : forall k, In (lab k n) (labels cb) -> False).
+  { intros k Hin. destruct (Hr _ Hin) as (k' & i & E & Hi). apply lab_inj in E. lia. }
+  assert (Hcc : In (labc n) (labels cb) -> False).
+  { intros Hin. destruct (Hr _ Hin) as (k' & i & E & Hi). symmetry in E. exact (labc_fresh _ _ _ E). }
+  constructor.
+  - intros Hin. apply in_app_or in Hin. destruct Hin as [Hin|Hin]; [exact (Hcb _ Hin)|].
+    apply in_app_or in Hin. destruct Hin as [Hin|[E|[]]].
+    + destruct (has_cont b); cbn in Hin; [destruct Hin as [E|[]]; symmetry in E; exact (labc_fresh _ _ _ E)|contradiction].
+    + apply lab_inj in E. destruct E as [E _]. discriminate.
+  - apply NoDup_app_intro; [exact Hnd| |].
+    + destruct (has_cont b); cbn [flat_map app]; repeat constructor; cbn; try tauto.
+      intros [E|[]]. exact (labc_fresh _ _ _ E).
+    + intros y H1 H2. apply in_app_or in H2. destruct H2 as [H2|[E|[]]].
+      * destruct (has_cont b); cbn in H2; [destruct H2 as [E|[]]; subst y; exact (Hcc H1)|contradiction].
+      * subst y. exact (Hcb _ H1).
+Qed.
+
+(* the loop as a whole scope: run from statement 0 *)
+Theorem for_scope_sim (lab_inj : forall k n k' n', lab k n = lab k' n' -> k = k' /\ n = n')
+  (labc_fresh : forall k i j, lab k i <> labc j) :
+  forall loc w o loc' w', FExec (loc, w) o (loc', w') ->
+  forall n wm, weq w wm ->
+  exists out wm', scope_result o = Some out /\ weq w' wm' /\ Run (fst (compile_for n)) 0 loc wm (out, loc', wm').
+Proof.
+  intros loc w o loc' w' H n wm Hw.
+  destruct (for_sim _ _ _ H (fst (compile_for n)) None n 0 wm (compile_for_NoDup lab_inj labc_fresh n) (code_at_whole _) Hw) as (wm' & Hw' & Hp).
+  cbn [fst snd] in *. destruct o; cbn [C01.post] in Hp.
+  - exists (OVal VNull), wm'. split; [reflexivity|split; [exact Hw'|]]. apply Hp.
+    apply (run_end cfg lib url_rel lint_lines um). apply nth_error_None. cbn. lia.
+  - contradiction.
+  - contradiction.
+  - exists o, wm'. split; [reflexivity|split; [exact Hw'|exact Hp]].
+Qed.
+
+(* ---------------------------------------------------------------- an executable interpreter for the structured reading *)
+Definition is_libb (name : str) (st : sstate) : bool :=
+  match lookup_fn name (fst st) false (snd st) with Some (VFun (FLib nm)) => str_eqb nm name | _ => false end.
+Lemma is_libb_sound name st : is_libb name st = true -> is_lib name st.
+Proof.
+  unfold is_libb, is_lib. destruct (lookup_fn name (fst st) false (snd st)) as [v|]; [|discriminate].
+  destruct v; try discriminate. destruct f; try discriminate. intros H. apply str_eqb_eq in H. subst. reflexivity.
+Qed.
+
+Definition inv3b (l m i : nat) (st : sstate) : bool :=
+  match slook vals st, slook len st, slook idx st with
+  | VArr l', VNum (NInt a), VNum (NInt c') => Nat.eqb l' l && Z.eqb a (Z.of_nat m) && Z.eqb c' (Z.of_nat i)
+  | _, _, _ => false
+  end.
+Lemma inv3b_sound l m i st : inv3b l m i st = true -> Inv3 l m i st.
+Proof.
+  unfold inv3b, Inv3. destruct (slook vals st); try discriminate.
+  destruct (slook len st) as [| |n1| | | | | |]; try discriminate. destruct n1; try discriminate.
+  destruct (slook idx st) as [| |n2| | | | | |]; try discriminate. destruct n2; try discriminate.
+  intros H. apply andb_prop in H. destruct H as [H H3]. apply andb_prop in H. destruct H as [H1 H2].
+  apply Nat.eqb_eq in H1. apply Z.eqb_eq in H2, H3. subst. repeat split; reflexivity.
+Qed.
+
+Notation sexec := (sexec cfg lib url_rel lint_lines um).
+
+Fixpoint floop (fuel l m i : nat) (st : sstate) {struct fuel} : option (sout * sstate) :=
+  match fuel with
+  | O => None
+  | S f =>
+    if is_libb ARRGET st then
+      match nth_error (w_arrs (snd st)) l with
+      | Some elems =>
+        match nth_error elems i with
+        | Some v =>
+          match sexec f b (assign' x v st) with
+          | Some (SStop out, st_b) => Some (SStop out, st_b)
+          | Some (SBreak, st_b) => Some (SNormal, st_b)
+          | Some (_, st_b) =>
+            if inv3b l m i st_b then
+              if S i <? m then floop f l m (S i) (assign' idx (int_v (S i)) st_b)
+              else Some (SNormal, assign' idx (int_v (S i)) st_b)
+            else None
+          | None => None
+          end
+        | None => None
+        end
+      | None => None
+      end
+    else None
+  end.
+
+Definition fexec (fuel : nat) (st : sstate) : option (sout * sstate) :=
+  let '(loc, w) := st in
+  match eval fuel e loc false um w with
+  | (OFuel, _) => None
+  | (OVal (VArr l), w1) =>
+    let st1 := assign' vals (VArr l) (loc, w1) in
+    if is_libb ARRLEN st1 then
+      match nth_error (w_arrs w1) l with
+      | Some [] => Some (SNormal, assign' len (int_v 0) st1)
+      | Some elems => floop fuel l (length elems) 0 (assign' idx (int_v 0) (assign' len (int_v (length elems)) st1))
+      | None => None
+      end
+    else None
+  | (OVal _, _) => None                      (* a non-array: no rule in FExec *)
+  | (o, w1) => Some (SStop o, (loc, w1))
+  end.
+
+Lemma floop_sound l m : forall fuel i st o st', floop fuel l m i st = Some (o, st') -> FLoop l m i st o st'.
+Proof.
+  induction fuel as [|f IH]; intros i st o st' H; [discriminate|]. cbn [floop] in H.
+  destruct (is_libb ARRGET st) eqn:Efn; [|discriminate]. apply is_libb_sound in Efn.
+  destruct (nth_error (w_arrs (snd st)) l) as [elems|] eqn:Ea; [|discriminate].
+  destruct (nth_error elems i) as [v|] eqn:Ev'; [|discriminate].
+  destruct (sexec f b (assign' x v st)) as [[ob st_b]|] eqn:Eb; [|discriminate].
+  apply (sexec_sound cfg lib url_rel lint_lines um) in Eb.
+  assert (Hit : Iter l i st ob st_b) by (exists elems, v; auto).
+  destruct ob.
+  - destruct (inv3b l m i st_b) eqn:EI; [|discriminate]. apply inv3b_sound in EI.
+    destruct (S i <? m) eqn:El.
+    + apply Nat.ltb_lt in El. eapply FL_next; [exact Hit|left; reflexivity|exact EI|exact El|apply IH; exact H].
+    + apply Nat.ltb_ge in El. injection H as <- <-. eapply FL_last; [exact Hit|left; reflexivity|exact EI|exact El].
+  - injection H as <- <-. apply FL_break. exact Hit.
+  - destruct (inv3b l m i st_b) eqn:EI; [|discriminate]. apply inv3b_sound in EI.
+    destruct (S i <? m) eqn:El.
+    + apply Nat.ltb_lt in El. eapply FL_next; [exact Hit|right; reflexivity|exact EI|exact El|apply IH; exact H].
+    + apply Nat.ltb_ge in El. injection H as <- <-. eapply FL_last; [exact Hit|right; reflexivity|exact EI|exact El].
+  - injection H as <- <-. apply FL_stop. exact Hit.
+Qed.
+
+Theorem fexec_sound fuel st o st' : fexec fuel st = Some (o, st') -> FExec st o st'.
+Proof.
+  destruct st as [loc w]. unfold fexec. destruct (eval fuel e loc false um w) as [oe w1] eqn:Ee.
+  assert (HE : oe <> OFuel -> Ev e loc w oe w1) by (intros Hn; exists fuel; split; [exact Ee|exact Hn]).
+  destruct oe as [v| | | | |]; try discriminate;
+    try (intros H; injection H as <- <-; apply F_Stop; [apply HE; discriminate|reflexivity]).
+  destruct v; try discriminate.
+  destruct (is_libb ARRLEN (assign' vals (VArr l) (loc, w1))) eqn:Efn; [|discriminate]. apply is_libb_sound in Efn.
+  destruct (nth_error (w_arrs w1) l) as [elems|] eqn:Ea; [|discriminate].
+  destruct elems as [|e0 et].
+  - intros H. injection H as <- <-. apply F_Empty; [apply HE; discriminate|exact Ea|exact Efn].
+  - intros H. apply floop_sound in H. eapply F_Loop; [apply HE; discriminate|exact Ea|discriminate|exact Efn|exact H].
+Qed.
+
 End Loop.
 End For.
+
+(* ---------------------------------------------------------------- the contracts hold for the modelled library (non-vacuity) *)
+From BS Require Import Model.LibCore.
+
+Ltac eval_ops := repeat match goal with |- context [op_is ?a ?s] => let r := eval vm_compute in (op_is a s) in change (op_is a s) with r end.
+
+Lemma libcore_arrayLength cfg : arrayLength_contract (libcore cfg).
+Proof.
+  intros cb l w elems H. unfold libcore, ARRLEN. eval_ops. cbn [orb]. cbv iota.
+  change (validate w [A TArray] [VArr l]) with (VOk [AV (VArr l)]). cbv iota. unfold get_arr. rewrite H. reflexivity.
+Qed.
+
+Lemma libcore_arrayGet cfg : arrayGet_contract (libcore cfg).
+Proof.
+  intros cb l i w elems v H Hi. unfold libcore, ARRGET. eval_ops. cbn [orb]. cbv iota.
+  assert (Hv : validate w [A TArray; AIndex] [VArr l; int_v i] = VOk [AV (VArr l); AV (int_v i)]).
+  { unfold int_v. cbn [validate A AIndex a_last a_type a_nullable a_int a_gte0 type_ok negb not_integral andb vcons].
+    unfold num_neg_p. cbn [num_compare]. destruct (Z.of_nat i ?= 0)%Z eqn:E; try reflexivity.
+    exfalso. assert (Hlt : (Z.of_nat i < 0)%Z) by exact E. lia. }
+  rewrite Hv. cbv iota. unfold int_v. cbn [num_to_nat].
+  replace (0 <=? Z.of_nat i)%Z with true by (symmetry; apply Z.leb_le; lia). rewrite Nat2Z.id.
+  unfold get_arr. rewrite H, Hi. reflexivity.
+Qed.
